@@ -9,6 +9,7 @@ import PartituraModel.Proofs.C04Ticks
 import PartituraModel.Proofs.C04Sort
 import PartituraModel.Proofs.C04Pair
 import PartituraModel.Proofs.C04Modes
+import PartituraModel.Model.ScoreMidi
 
 namespace C04
 open Model Model.Ticks Model.MidiPair Model.MidiModes
@@ -176,6 +177,17 @@ theorem pairing_sound (notes : List NoteRec) (hno : C04P.NoOverlap notes) (hv : 
     rwa [C04P.tag_map_snd] at this
   · unfold pairTrack
     rw [C04S.absolute_deltas]
+
+/-- The same for a whole written track (`Model.ScoreMidi.trackEvents`): with the tempo and time/key
+    signature events of the track sorted in, reading the delta-time messages of the track back returns
+    exactly the notes of the track. -/
+theorem track_pairing_sound (tempos metas : List (Int × Msg)) (notes : List NoteRec)
+    (ht : ∀ x ∈ tempos, C04P.isNoteMsg x = false) (hm : ∀ x ∈ metas, C04P.isNoteMsg x = false)
+    (hno : C04P.NoOverlap notes) (hv : ∀ n ∈ notes, C04P.Valid n) :
+    (pairTrack (writeTrack (Model.ScoreMidi.trackEvents tempos metas notes))).Perm notes := by
+  unfold pairTrack writeTrack Model.ScoreMidi.trackEvents
+  rw [C04S.absolute_deltas, C04P.pairAbs_track tempos metas notes ht hm]
+  exact (pairing_sound notes hno hv).1
 
 /-- non-vacuity: touching notes of one pitch, a grace note on the boundary with that pitch, a chord -/
 example : C04P.NoOverlap [⟨0, 4, 1, 60, 64⟩, ⟨4, 8, 1, 60, 64⟩, ⟨4, 4, 1, 60, 64⟩, ⟨0, 8, 1, 64, 64⟩, ⟨2, 6, 2, 60, 64⟩] := by
